@@ -270,15 +270,15 @@ def run(chk: Check) -> None:
         "pathspec (the gitignore-syntax matcher), glob, os.walk and the file system are oracles of the model and are used, not modelled",
         "the reference walk in harness/c17.py is written from the property text and uses pathspec with full relative paths"]
     chk.cov["rule"] = ("random directory trees (<= 4 levels; names incl. spaces / non-ASCII / hidden; sizes around the limit; default-excluded and user-excluded "
-                       "directories; symlinks to files and directories inside and outside; dangling links; .flowmarkignore at several levels) x the complete "
-                       "product of include / exclude / extend-exclude / force-exclude / max-size settings (162) x argument lists (directory, sub-directory, "
+                       "directories; symlinks to files and directories inside and outside; dangling links; existing names holding glob characters; .flowmarkignore at "
+                       "several levels) x include / exclude / extend-exclude / force-exclude / max-size settings (the complete product of 162 on 12 trees and 24 sampled "
+                       "ones on 88 more trees in thorough, 12 sampled per tree in quick) x argument lists (directory, sub-directory, "
                        "explicit files, globs, mixed, permuted, duplicated): result vs reference walk; shape (absolute, sorted, duplicate-free); invariance under "
                        "argument permutation and under shuffled directory listing order; non-trivial = tree has >= 3 candidate files; distinct by (tree, settings, args)")
     if not chk.phase_build("Props/C17.v"):
         return
     rng = chk.rng
-    n = 1 if tier == "quick" else 8
-    ntrees = 40 * n
+    ntrees = 40 if tier == "quick" else 100
     nb = 0
     ncases = 0
     WORK.mkdir(parents=True, exist_ok=True)
@@ -302,7 +302,8 @@ def run(chk: Check) -> None:
                 arglists.append(fs)
                 arglists.append([".", fs[0]] + ([d] if dirs else []))
             arglists += [["*.md"], ["**/*.md"], ["*/*.md", "."], ["docs/*.md"] if "docs" in tree else ["*.markdown"]]
-            settings = SETTINGS if tier == "thorough" else rng.sample(SETTINGS, 12)
+            # thorough: the complete settings product on the first 12 trees, a sample of 24 settings on the others (about 40 000 cases)
+            settings = (SETTINGS if ti < 12 else rng.sample(SETTINGS, 24)) if tier == "thorough" else rng.sample(SETTINGS, 12)
             for s in settings:
                 cfg = make_config(s)
                 for args in (arglists if tier == "thorough" else rng.sample(arglists, min(4, len(arglists)))):
